@@ -4,7 +4,7 @@
    Z, positive, Q, nat stay Coq datatypes. *)
 From Coq Require Import QArith List ZArith.
 From Coq Require Extraction ExtrOcamlBasic.
-From SL Require Import Model.Num Model.InstQ Model.Run.
+From SL Require Import Model.Num Model.InstQ Model.Run Model.ArrRun.
 
 Definition runQ (eps : Q) (op : opcode) (dims : list nat) (xs : list (option Q))
   : Z * list (option Q) := @run FldQ eps op dims xs.
@@ -13,4 +13,4 @@ Definition runQ (eps : Q) (op : opcode) (dims : list nat) (xs : list (option Q))
 Definition mkQ (n : Z) (d : positive) : Q := Qred (Qmake n d).
 
 Extraction Language OCaml.
-Extraction "../ocaml/model.ml" runQ mkQ.
+Extraction "../ocaml/model.ml" runQ mkQ run_arr.
